@@ -126,6 +126,10 @@ def run(ctx):
             nontrivial = overtaken = 0
             kinds = {}
             for line, ri, rm in zip(lines, li, lm):
+                if line.startswith("G ") and "HUNG" in ri and not ri.startswith("CRASH"):
+                    v.property_failure("not-one-response-per-request", "a complete request was fed and the script waited 5 s for its response in vain: "
+                                       "it was never framed or never answered (%s)" % ri[-160:], line, "impl:  %s\nmodel: %s" % (ri, rm))
+                    continue
                 if ri.startswith("CRASH") or ri.startswith("EXC") or "HUNG" in ri or ri.endswith("FAIL"):
                     v.property_failure("impl-crashes", "HTTP server scenario crashed / hung (%s)" % ri[-200:], line, ri[-600:])
                     continue
